@@ -8,9 +8,24 @@
    [new_reader (finalize w) = Some r] : NewReader on the sections Finalize produced;  theorem 4 says
    that going through the byte image changes nothing ([finalize_reader]). *)
 From Coq Require Import NArith List Lia.
-Require Import Pk.IndexFormat Pk.IndexFormatCodec Pk.IndexFormatHosts Pk.IndexFormatWriter Pk.IndexFormatData Pk.IndexFormatPackets Pk.IndexFormatLookup Pk.IndexFormatScan Pk.IndexFormatRefuted.
+Require Import Pk.IndexFormat Pk.IndexFormatCodec Pk.IndexFormatHosts Pk.IndexFormatWriter Pk.IndexFormatData Pk.IndexFormatPackets Pk.IndexFormatLookup Pk.IndexFormatScan Pk.IndexFormatAccepts Pk.IndexFormatRefuted.
 Import ListNotations.
 Open Scope N_scope.
+
+(* ---------------- 0. which inputs AddStream takes ---------------- *)
+(* accepts_stream gcap s (decidable): at least one packet, the first packet has a pcap source, both addresses of the
+   same length, and that length below the group capacity (the code: 4 or 16 < 65535).  The model's add_stream is
+   None exactly where the Go code cannot continue: empty s.Packets (index out of range), no packet with a source
+   (the has-next flag of the PREVIOUS stream's last record would be cleared), no host group for the two addresses
+   (the code appends groups until 2^16 and refuses).  The refusals at 2^32 streams / packets / imports are the
+   explicit bounds lenN (w_packets w) < 2^32 etc. of the theorems below. *)
+Theorem C01_accepted_input_is_written : forall gcap L w,
+  accepts_input gcap L = true -> exists w', add_streams gcap w L = Some w'.
+Proof. exact add_streams_accepts. Qed.
+
+Theorem C01_written_stream_had_packets_and_a_source : forall gcap w id s w',
+  add_stream gcap w (id, s) = Some w' -> s_packets s <> [] /\ exists p, In p (s_packets s) /\ p_srcs p <> [].
+Proof. exact add_stream_some_inv. Qed.
 
 (* ---------------- 4. the byte image ---------------- *)
 (* fits_file f: every record field is below its width (uint8/16/32/64) and the file is shorter than 2^64 *)
